@@ -220,6 +220,8 @@ class ExprTr:
                 return "(%s %s)" % (UNARY_CALLS[f.attr], recv)
             if f.attr == "reshape" and len(e.args) == 1 and ast.unparse(e.args[0]) == "-1":
                 return recv   # shape only
+            if f.attr == "expand_as" and len(e.args) == 1:
+                return recv   # broadcast only: per-element value unchanged
             raise Untranslatable("method .%s()" % f.attr, e)
         raise Untranslatable("call", e)
 
